@@ -502,7 +502,11 @@ func (e *e1Engine) isTarget(ins ssa.Instruction, t Target, lits []Lit) bool {
 		}
 	case TStore:
 		if s, ok := ins.(*ssa.Store); ok {
-			return e.re(t.Re).MatchString(desc(s.Addr, maxDepth))
+			d := desc(s.Addr, maxDepth)
+			if t.ReNot != "" && e.re(t.ReNot).MatchString(d) {
+				return false
+			}
+			return e.re(t.Re).MatchString(d)
 		}
 		if m, ok := ins.(*ssa.MapUpdate); ok {
 			return e.re(t.Re).MatchString(desc(m.Map, maxDepth) + "[" + desc(m.Key, 3) + "]")
